@@ -119,15 +119,15 @@ theorem lock_dies_with_process {cfg : Cfg} {done : Bool} {failed : Option Nat} {
     holds the lock, and no success marker exists; from its (first) failure-marker write on, and for as
     long as no runner has taken the run lock again (`epoch` unchanged), the directory shows a failure
     marker and no success marker.  Such a process never writes the success marker. -/
-theorem signal_in_body_marks_failed {cfg : Cfg} {done : Bool} {failed : Option Nat} {s : St}
+theorem signal_in_body_marks_failed {cfg : Cfg} (hm : cfg.markerFirst = true) {done : Bool} {failed : Option Nat} {s : St}
     (h : Reach cfg done failed s) (i : Nat) (hi : i < s.n) (hs : (s.procs i).sigInBody = true) :
     ((s.procs i).dead = none → (s.procs i).wroteFailed = none →
         atWrite (s.procs i) = true ∧ inBody (s.procs i) = true ∧ s.sh.lock = some (.run i) ∧ s.sh.done = false) ∧
     ((s.procs i).wroteFailed = some s.sh.epoch → s.sh.failed.isSome = true ∧ s.sh.done = false) ∧
     (s.procs i).touched = false := by
   have inv := inv_reach h
-  refine ⟨inv.sigBody1 i hi hs, fun hw => ?_, ((touchLocal_reach h i hi).2 hs).2.2⟩
-  have := inv.sigBody2 i hi hs hw
+  refine ⟨inv.sigBody1 hm i hi hs, fun hw => ?_, ((touchLocal_reach h i hi).2 hs).2.2⟩
+  have := inv.sigBody2 hm i hi hs hw
   exact ⟨this.1, this.2.1⟩
 
 /-- **second sentence, executable form**: SIGTERM or SIGINT delivered to a process that is running the body
@@ -151,12 +151,12 @@ theorem signal_in_body_then_exit {cfg : Cfg} {done : Bool} {failed : Option Nat}
   simp only [hloc, Loc.hasReg, Loc.hasTerm, Loc.handled, forall_const] at hH
   have hnc := noClean_reach h i hlt hhnd (by simp [hloc, Loc.failing])
   intro s'
-  have key : ∃ c p1, deliver i s.sh (s.procs i) sg = (s.sh, p1) ∧ p1.dead = none ∧ p1.loc = .body k ∧
-      p1.hnd = some (.write, c) ∧ p1.reg = true ∧ p1.cleaned = false := by
+  have key : ∃ c p1, deliver cfg i s.sh (s.procs i) sg = (s.sh, p1) ∧ p1.dead = none ∧ p1.loc = .body k ∧
+      p1.hnd = some (hsFirst cfg, c) ∧ p1.reg = true ∧ p1.cleaned = false := by
     rcases hsg with rfl | rfl
-    · refine ⟨15, (deliver i s.sh (s.procs i) .term).2, ?_⟩
+    · refine ⟨15, (deliver cfg i s.sh (s.procs i) .term).2, ?_⟩
       simp [deliver, hdead, hH.2.1, hloc, hH.1, hnc]
-    · refine ⟨2, (deliver i s.sh (s.procs i) .int).2, ?_⟩
+    · refine ⟨2, (deliver cfg i s.sh (s.procs i) .int).2, ?_⟩
       simp [deliver, hdead, hH.2.2, hloc, hH.1, hnc]
   obtain ⟨c, p1, hc, h1, h2, h3, h4, h5⟩ := key
   have hs1 : act cfg s (.signal i sg) = { s with procs := upd s.procs i p1 } := by
@@ -167,6 +167,40 @@ theorem signal_in_body_then_exit {cfg : Cfg} {done : Bool} {failed : Option Nat}
   obtain ⟨t1, t2, t3, t4, t5⟩ := this
   simp [upd]
   exact ⟨t1, t2, t5, t3, t4⟩
+
+/-- **second sentence under a fault sequence (signal, then hard kill): the failure marker precedes every
+    clean-up step** — on the source order (`markerFirst`).  In every reachable state: a `handle_error` that is past
+    its first action (running as a signal handler, or called from an `except` clause) has written the
+    failure marker; and a process that received SIGTERM/SIGINT inside the body and has begun to clean up
+    (`cleaned`, which precedes the pid-file removal and the lock release) has written it, and the directory
+    shows the failure marker and no success marker for as long as no runner has taken the lock again.
+    Hence a SIGKILL (or any later death) after the first clean-up step cannot leave the directory without marker. -/
+theorem marker_precedes_cleanup {cfg : Cfg} (hm : cfg.markerFirst = true) {done : Bool} {failed : Option Nat} {s : St}
+    (h : Reach cfg done failed s) (i : Nat) (hi : i < s.n) :
+    (∀ st c, (s.procs i).hnd = some (st, c) → st ≠ .write → (s.procs i).wroteFailed ≠ none) ∧
+    (∀ st c, (s.procs i).loc = .herr st c → st ≠ .write → (s.procs i).wroteFailed ≠ none) ∧
+    ((s.procs i).sigInBody = true → (s.procs i).cleaned = true →
+      ∃ e, (s.procs i).wroteFailed = some e ∧ (e = s.sh.epoch → s.sh.failed.isSome = true ∧ s.sh.done = false)) := by
+  have l := markerFirstLocal_reach hm h i hi
+  refine ⟨l.1, l.2, fun hs hc => ?_⟩
+  have hw := mbc_reach hm h i hi hs hc
+  cases hwf : (s.procs i).wroteFailed with
+  | none => exact absurd hwf hw
+  | some e =>
+    refine ⟨e, rfl, fun he => ?_⟩
+    have := (inv_reach h).sigBody2 hm i hi hs (he ▸ hwf)
+    exact ⟨this.1, this.2.1⟩
+
+/-- **the same fault sequence on the clean-up-first order loses the marker**: SIGTERM inside the body, the
+    handler removes the pid file and releases the lock, SIGKILL: no failure marker, no success marker, no pid
+    file, lock free. -/
+theorem cleanup_first_loses_marker :
+    let s := run cleanupFirst (St.init false none)
+      ([.lLock 0, .lSpawn 0 .ok 2, .lWrite 0, .lRelease 0] ++ List.replicate 10 (.step 0) ++
+       [.signal 0 .term, .step 0, .step 0, .step 0, .signal 0 .kill])
+    (s.procs 0).sigInBody = true ∧ (s.procs 0).cleaned = true ∧ (s.procs 0).dead = some (.signal .kill) ∧
+    s.sh.failed = none ∧ s.sh.done = false ∧ s.sh.pid = none ∧ s.sh.lock = none := by
+  decide
 
 /-- **last sentence, on the repaired source**: a job process that ended on its own (exited, with
     whatever status, without ever receiving SIGTERM/SIGINT) leaves no process-id file behind: the pid
@@ -215,6 +249,10 @@ example : running (run current (St.init false (some 1)) raceTrace) 0 = true
 example : ((run current (St.init false none) (raceTrace ++ [.signal 0 .term])).procs 0).sigInBody = true := by decide
 example : let s := run current (St.init false none) (raceTrace ++ [.signal 0 .term, .step 0])
     (s.procs 0).wroteFailed = some s.sh.epoch ∧ s.sh.failed = some 15 := by decide
+
+/-- hypotheses of `marker_precedes_cleanup`: signalled in the body and past the first clean-up step -/
+example : let s := run repaired (St.init false none) (raceTrace ++ [.signal 0 .term, .step 0, .step 0, .step 0])
+    (s.procs 0).sigInBody = true ∧ (s.procs 0).cleaned = true ∧ s.sh.pid = none ∧ s.sh.failed = some 15 := by decide
 
 /-- a process that ended on its own, on the repaired source: launched through the scheduler protocol, the
     pid file is gone (hypotheses of `own_exit_leaves_no_pid`); and one that failed on its own -/
